@@ -821,7 +821,7 @@ where
         // `codepoint_to_utf8`
         if (0xD800..0xDC00).contains(&point1) {
             // parse the second utf8 code point of surrogate
-            let point2 = if let Some(asc) = self.read.next_n(6) {
+            let point2 = if let Some(asc) = self.read.peek_n(6) {
                 if asc[0] != b'\\' || asc[1] != b'u' {
                     if self.cfg.utf8_lossy {
                         return Ok(0xFFFD);
@@ -844,10 +844,12 @@ where
                 if self.cfg.utf8_lossy {
                     return Ok(0xFFFD);
                 } else {
+                    self.read.eat(6);
                     // invalid surrogate
                     return perr!(self, InvalidSurrogateUnicodeCodePoint);
                 }
             }
+            self.read.eat(6);
 
             Ok((((point1 - 0xd800) << 10) | low_bit).wrapping_add(0x10000))
         } else if (0xDC00..0xE000).contains(&point1) {
